@@ -779,6 +779,7 @@ func check(prop, tier string, seed int64, replay string, budget time.Duration, w
 	sort.Slice(viols, func(i, j int) bool { return viols[i].Run < viols[j].Run })
 	var reported []map[string]interface{}
 	nViol := 0
+	unconfirmed := 0
 	for _, v := range viols {
 		if seen[v.Key()] {
 			continue
@@ -808,8 +809,18 @@ func check(prop, tier string, seed int64, replay string, budget time.Duration, w
 		// Confirm in a fresh process, exactly.
 		r, code, stderr := singleRun(vbin, prop, mv, len(mv.Draws) > 0, outDir, "confirm")
 		if r == nil || r.Key() != mv.Key() {
-			fmt.Printf("HARNESS-ERROR: violation %s (seed %d run %d) did not reproduce from its replay file (code %d)\n%s\n", mv.Key(), v.Seed, v.Run, code, lastN(stderr, 2000))
-			return 2
+			// The minimised tape did not replay: fall back to the tape as found.
+			mv = v
+			mv.ReplayCmd = fmt.Sprintf("bin/check %s --replay %s", prop, rp)
+			r, code, stderr = singleRun(vbin, prop, mv, len(mv.Draws) > 0, outDir, "confirm")
+		}
+		if r == nil || r.Key() != mv.Key() {
+			// Not reproducible from its replay file: never reported as a
+			// violation. If nothing else is confirmed the check ends with
+			// exit 2 (harness trouble), not with a VIOLATION line.
+			fmt.Printf("HARNESS-WARNING: violation %s (seed %d run %d) did not reproduce from its replay file (code %d); not reported\n%s\n", v.Key(), v.Seed, v.Run, code, lastN(stderr, 600))
+			unconfirmed++
+			continue
 		}
 		b, _ := json.MarshalIndent(mv, "", " ")
 		os.WriteFile(rp, b, 0644)
@@ -893,6 +904,10 @@ func check(prop, tier string, seed int64, replay string, budget time.Duration, w
 		prop, tier, cov["evaluations"], cov["distinct_nontrivial"], cov["distinct_states"], cov["simulated_time"], time.Since(t0).Seconds(), nViol)
 	if exit == 0 && len(results) == 0 {
 		fmt.Println("HARNESS-ERROR: no run completed")
+		return 2
+	}
+	if exit == 0 && unconfirmed > 0 {
+		fmt.Printf("HARNESS-ERROR: %d violation(s) were seen but none reproduced from its replay file\n", unconfirmed)
 		return 2
 	}
 	if exit == 0 && len(results) >= 50 {
